@@ -9,6 +9,7 @@ import itertools
 from .absint import new_interp, Interp, HList, HDict, HInst, NONE, const, is_const, fmt, mk_not, mk_cmp
 from .common import AnalysisError
 from .facts import facts
+from .names import N
 from . import nf
 
 PQ = "gherkin.parser.Parser"
@@ -140,7 +141,7 @@ def analyse_lookahead(name: str) -> dict:
     I = new_interp()
     fi = I.facts.func(f"{PQ}.{name}")
     info = {"line": fi.node.lineno, "fi": fi, "expected": [], "skip": [], "problems": [], "requeue": []}
-    I.intrinsics[f"{PQ}.read_token"] = _stub("read_token", "token", "gherkin.token.Token")
+    I.intrinsics[f"{PQ}.{N.READ_TOKEN}"] = _stub("read_token", "token", "gherkin.token.Token")
     for k in KINDS:
         def mk(k):
             def h(I_, st, fi_, args, kwargs, n, tree):
@@ -258,7 +259,7 @@ def analyse_lookahead(name: str) -> dict:
     if set(kinds) - set(E) - set(S):
         info["problems"].append(f"token kinds tested without effect on the look-ahead: {sorted(set(kinds) - set(E) - set(S))}")
     # after the loop: exactly one re-queue of the whole local queue at the right end of the context queue
-    tq = ("attr", ctxp, "token_queue")
+    tq = ("attr", ctxp, N.CTX_QUEUE)
     post = [(n, c) for n, c in nf.iter_nodes(tree) if n[0] == "mutate" and n[1] == tq]
     info["requeue"] = [(n[2], fmt(n[3][0], I) if n[3] else None, n[4]) for n, c in post]
     if len(post) != 1:
@@ -283,12 +284,12 @@ def analyse_lookahead(name: str) -> dict:
 # ---- add_error ------------------------------------------------------------------------------------
 def analyse_add_error() -> dict:
     I = new_interp()
-    fi = I.facts.func(f"{PQ}.add_error")
+    fi = I.facts.func(f"{PQ}.{N.ADD_ERROR}")
     I.intrinsics["gherkin.errors.CompositeParserException.__init__"] = _stub("composite")
     tree, rv, st = I.run(fi.qualname)
     p = fi.params()
     ctxp, err = ("param", p[1]), ("param", p[2])
-    errs = ("attr", ctxp, "errors")
+    errs = ("attr", ctxp, N.CTX_ERRORS)
     out = {"fi": fi, "I": I, "problems": [], "threshold": None, "line": fi.node.lineno}
     apps = [(n, c) for n, c in nf.iter_nodes(tree) if n[0] == "mutate" and n[1] == errs]
     if len(apps) != 1 or apps[0][0][2] != "append" or apps[0][0][3] != (err,):
@@ -353,7 +354,7 @@ def analyse_add_error() -> dict:
 # ---- read_token -----------------------------------------------------------------------------------
 def analyse_read_token() -> dict:
     I = new_interp()
-    fi = I.facts.func(f"{PQ}.read_token")
+    fi = I.facts.func(f"{PQ}.{N.READ_TOKEN}")
     reads = []
 
     def scan_read(I_, st_, fi_, args, kwargs, n, tree_):
@@ -363,8 +364,8 @@ def analyse_read_token() -> dict:
     I.intrinsics["gherkin.token_scanner.TokenScanner.read"] = scan_read
     tree, rv, st = I.run(fi.qualname)
     ctxp = ("param", fi.params()[1])
-    q = ("attr", ctxp, "token_queue")
-    sc = ("attr", ctxp, "token_scanner")
+    q = ("attr", ctxp, N.CTX_QUEUE)
+    sc = ("attr", ctxp, N.CTX_SCANNER)
     ok = False
     if rv[0] == "cond":
         if nonempty_guard(rv[1], True, q):
@@ -381,8 +382,8 @@ def analyse_read_token() -> dict:
 # ---- handle_external_error ---------------------------------------------------------------------------
 def analyse_wrapper() -> dict:
     I = new_interp()
-    fi = I.facts.func(f"{PQ}.handle_external_error")
-    I.intrinsics[f"{PQ}.add_error"] = _stub("add_error")
+    fi = I.facts.func(f"{PQ}.{N.HANDLE_EXTERNAL}")
+    I.intrinsics[f"{PQ}.{N.ADD_ERROR}"] = _stub("add_error")
     tree, rv, st = I.run(fi.qualname)
     p = fi.params()
     selft, ctxp, dflt, arg, act = [("param", x) for x in p[:5]]
@@ -503,8 +504,8 @@ class ParseNF:
         self.I = I = new_interp()
         self.fi = fi = I.facts.func(f"{PQ}.parse")
         f = I.facts
-        I.intrinsics[f"{PQ}.read_token"] = _stub("read_token", "token")
-        I.intrinsics[f"{PQ}.match_token"] = _stub("match_token", "state")
+        I.intrinsics[f"{PQ}.{N.READ_TOKEN}"] = _stub("read_token", "token")
+        I.intrinsics[f"{PQ}.{N.MATCH_TOKEN}"] = _stub("match_token", "state")
         I.intrinsics[f"{PQ}.start_rule"] = _stub("start_rule")
         I.intrinsics[f"{PQ}.end_rule"] = _stub("end_rule")
         I.intrinsics[f"{PQ}.get_result"] = _stub("get_result", "result")
@@ -610,7 +611,7 @@ def analyse_wrapper_fn(kind: str) -> dict:
     I = new_interp()
     fi = I.facts.func(f"{PQ}.match_{kind}")
     log = []
-    I.intrinsics[f"{PQ}.handle_external_error"] = _hee_stub(log)
+    I.intrinsics[f"{PQ}.{N.HANDLE_EXTERNAL}"] = _hee_stub(log)
     I.intrinsics["gherkin.token.Token.eof"] = lambda I_, st, fi_, args, kw, n, tree: ("eof", args[0])
     tree, rv, st = I.run(fi.qualname)
     p = fi.params()
@@ -638,7 +639,7 @@ def analyse_wrapper_fn(kind: str) -> dict:
     _self, ctx, dflt, arg, act = args
     info["default"] = dflt[1] if is_const(dflt) else fmt(dflt, I)
     info["argument"] = p[2] if arg == tokp else fmt(arg, I)
-    if act[0] == "bound" and act[1] == ("attr", ctxp, "token_matcher"):
+    if act[0] == "bound" and act[1] == ("attr", ctxp, N.CTX_MATCHER):
         info["target"] = act[2].rsplit(".", 1)[1]
     else:
         info["target"] = fmt(act, I)
@@ -651,7 +652,7 @@ def analyse_forwarder(name: str, target: str) -> dict:
     I = new_interp()
     fi = I.facts.func(f"{PQ}.{name}")
     log = []
-    I.intrinsics[f"{PQ}.handle_external_error"] = _hee_stub(log)
+    I.intrinsics[f"{PQ}.{N.HANDLE_EXTERNAL}"] = _hee_stub(log)
     tree, rv, st = I.run(fi.qualname)
     p = fi.params()
     selft = ("param", p[0])
